@@ -7,6 +7,7 @@ import BiscuitModel.Model.Intern
 import BiscuitModel.Model.Limits
 import BiscuitModel.Model.Wire
 import BiscuitModel.Model.TokenSyms
+import BiscuitModel.Model.Printer
 open Lean
 namespace Biscuit.Codec
 
@@ -382,5 +383,99 @@ def parseContainer (j : Json) : P (Option Container) := do
   | _, _ => pure none
 
 def pubKeyOut (k : PubKey) : Json := Json.mkObj [("alg", k.alg), ("bytes", hex k.bytes)]
+
+/-! ## source-level items of the `print` stream (C14, C20) -/
+namespace Src
+open Biscuit.Printer
+
+def parseSKey (k : Json) : P SKey := do
+  if let some x := fieldOpt k "int" then return .int (← getInt x)
+  if let some x := fieldOpt k "str" then return .str (← x.getStr?)
+  if let some x := fieldOpt k "param" then return .param (← x.getStr?)
+  throw "bad map key"
+
+partial def parseSTerm (j : Json) : P STerm := do
+  if let some v := fieldOpt j "var" then return .var (← v.getStr?)
+  if let some v := fieldOpt j "int" then return .int (← getInt v)
+  if let some v := fieldOpt j "str" then return .str (← v.getStr?)
+  if let some v := fieldOpt j "date" then return .date (← getNat v)
+  if let some v := fieldOpt j "bytes" then return .bytes (← unhex (← v.getStr?))
+  if let some v := fieldOpt j "bool" then return .bool (← v.getBool?)
+  if let some _ := fieldOpt j "null" then return .null
+  if let some v := fieldOpt j "set" then return .set (← (← getArr v).mapM parseSTerm)
+  if let some v := fieldOpt j "arr" then return .arr (← (← getArr v).mapM parseSTerm)
+  if let some v := fieldOpt j "map" then
+    let kvs ← (← getArr v).mapM fun kv => do
+      match ← getArr kv with
+      | [k, t] => pure (← parseSKey k, ← parseSTerm t)
+      | _ => throw "bad map entry"
+    return .map kvs
+  if let some v := fieldOpt j "param" then return .param (← v.getStr?)
+  throw s!"bad term {j.compress}"
+
+def binOf (n : String) (name : String) : P Bin :=
+  match n with
+  | "lt" => pure .lt | "gt" => pure .gt | "le" => pure .le | "ge" => pure .ge | "eq" => pure .eq
+  | "contains" => pure .contains | "prefix" => pure .prefix | "suffix" => pure .suffix | "regex" => pure .regex
+  | "add" => pure .add | "sub" => pure .sub | "mul" => pure .mul | "div" => pure .div | "and" => pure .and
+  | "or" => pure .or | "intersection" => pure .intersection | "union" => pure .union | "band" => pure .band
+  | "bor" => pure .bor | "bxor" => pure .bxor | "ne" => pure .ne | "heq" => pure .heq | "hne" => pure .hne
+  | "lazyand" => pure .lazyAnd | "lazyor" => pure .lazyOr | "all" => pure .all | "any" => pure .any
+  | "get" => pure .get | "ffi" => pure (.ffi name)
+  | other => throw s!"bad binary {other}"
+
+partial def parsePOp (j : Json) : P POp := do
+  let name : String := match fieldOpt j "name" with
+    | some (.str s) => s
+    | _ => ""
+  if let some v := fieldOpt j "val" then return .val (← parseSTerm v)
+  if let some v := fieldOpt j "un" then
+    match ← v.getStr? with
+    | "negate" => return .un .negate
+    | "parens" => return .un .parens
+    | "length" => return .un .length
+    | "type" => return .un .typeOf
+    | "ffi" => return .un (.ffi name)
+    | other => throw s!"bad unary {other}"
+  if let some v := fieldOpt j "bin" then return .bin (← binOf (← v.getStr?) name)
+  if let some v := fieldOpt j "clo" then
+    let ps ← (← getArr v).mapM fun p => p.getStr?
+    let ops ← (← getArr (← field j "ops")).mapM parsePOp
+    return .clo ps ops
+  throw s!"bad op {j.compress}"
+
+def parseSPred (j : Json) : P SPred := do
+  pure ⟨← (← field j "name").getStr?, ← (← getArr (← field j "terms")).mapM parseSTerm⟩
+
+def parseSScope (j : Json) : P SScope := do
+  if let some _ := fieldOpt j "authority" then return .authority
+  if let some _ := fieldOpt j "previous" then return .previous
+  if let some v := fieldOpt j "key" then return .key (← v.getStr?)
+  if let some v := fieldOpt j "param" then return .param (← v.getStr?)
+  throw "bad scope"
+
+def parseSRule (j : Json) : P Printer.SRule := do
+  let exprs ← (← getArr (← field j "exprs")).mapM fun e => do (← getArr e).mapM parsePOp
+  pure ⟨← parseSPred (← field j "head"), ← (← getArr (← field j "body")).mapM parseSPred, exprs,
+    ← (← getArr (← field j "scopes")).mapM parseSScope⟩
+
+def parseSCheck (j : Json) : P SCheck := do
+  let k ← (← field j "kind").getStr?
+  let kind : CKind := if k == "one" then .one else if k == "all" then .all else .reject
+  pure ⟨kind, ← (← getArr (← field j "queries")).mapM parseSRule⟩
+
+def parseSPolicy (j : Json) : P SPolicy := do
+  let k ← (← field j "kind").getStr?
+  pure ⟨if k == "allow" then .allow else .deny, ← (← getArr (← field j "queries")).mapM parseSRule⟩
+
+def parseSBlockSrc (j : Json) : P Printer.SBlock := do
+  pure ⟨← (← getArr (← field j "scopes")).mapM parseSScope, ← (← getArr (← field j "facts")).mapM parseSPred,
+    ← (← getArr (← field j "rules")).mapM parseSRule, ← (← getArr (← field j "checks")).mapM parseSCheck⟩
+
+def parseSAuthorizer (j : Json) : P SAuthorizer := do
+  pure ⟨← (← getArr (← field j "facts")).mapM parseSPred, ← (← getArr (← field j "rules")).mapM parseSRule,
+    ← (← getArr (← field j "checks")).mapM parseSCheck, ← (← getArr (← field j "policies")).mapM parseSPolicy⟩
+
+end Src
 
 end Biscuit.Codec
